@@ -14,6 +14,19 @@ class X(A): ...
 class D(B, X): ...
 
 
+_SRC_N = [0]
+
+
+def _define(src, glb):
+    """exec with the source registered in linecache (the rewrite of call_next needs inspect.getsource)."""
+    import linecache
+
+    _SRC_N[0] += 1
+    fname = f"<c07:{_SRC_N[0]}>"
+    linecache.cache[fname] = (len(src), None, src.splitlines(True), fname)
+    exec(compile(src, fname, "exec"), glb)
+
+
 def run(fn, *a):
     try:
         return fn(*a)
@@ -145,6 +158,38 @@ def fresh_keyword():
     return o
 
 
+def dependent_tied_top_rank(names=("c1", "c2", "c3", "c4")):
+    """c1(x: Flagged, y: L1), c2(x: L2, y: L1), c3(x: object, y: L2), c4(x: L1, y: object); for (L2, L2) with the flag
+    off, c1 does not match: the walk is c3 -> c2 -> c4 -> 'No method' (each method once)."""
+    from ovld.dependent import dependent_check
+
+    class L1:
+        flag = False
+
+    class L2(L1):
+        pass
+
+    @dependent_check
+    def Flagged(value: L1):
+        return value.flag
+
+    o = Ovld(name="dtr")
+    log = []
+    T = dict(c1=(Flagged, L1), c2=(L2, L1), c3=(object, L2), c4=(L1, object))
+    for nm in names:
+        g = dict(T0=T[nm][0], T1=T[nm][1], LOG=log, call_next=call_next)
+        _define(f"def {nm}(x: T0, y: T1):\n    LOG.append({nm!r})\n    if len(LOG) > 10:\n        raise RecursionError('walk does not terminate')\n    return call_next(x, y)\n", g)
+        o.register(g[nm])
+    try:
+        o(L2(), L2())
+        end = "returned"
+    except TypeError as e:
+        end = "AMBIGUOUS" if str(e).startswith("Ambiguous") else "NOMETHOD"
+    except RecursionError:
+        end = "RECURSION"
+    return log + [end]
+
+
 def with_next():
     o = Ovld(name="nxt")
 
@@ -231,14 +276,167 @@ CASES = [
     ("fresh_when_the_first_argument_does_not_match", lambda: fresh_two_args("first_mismatch")(B(), B()), ["BB", "str,B"]),
     ("two_argument_chain", lambda: fresh_two_args("same")(B(), B()), ["BB", "A,A"]),
     ("fresh_when_a_keyword_argument_does_not_match", lambda: fresh_keyword()(B(), k=B()), ["B,k=B", "A,k=str"]),
+    ("two_argument_walk_below_a_tied_rank_with_a_false_condition", lambda: dependent_tied_top_rank(), ["c3", "c2", "c4", "NOMETHOD"]),
     ("next_equivalent", lambda: with_next()(C()), ["C", "B", "A"]),
     ("priority_then_specificity", lambda: priority_chain()(B()), ["hi", "B", "obj"]),
     ("nullary", lambda: nullary()(), "NOMETHOD"),
 ]
 
 
+def walk_suite():
+    """The statement of C07 as an oracle: the walk of call_next from a call equals the list obtained by repeatedly asking a
+    FRESH function from which the methods that already ran (and everything tied with them) have been removed.  Scenario
+    family of c02_oracle.py (class DAGs x method sets x calls), every method delegating with the same arguments."""
+    import itertools
+
+    import c02_oracle as O
+
+    def build(sc, keep):
+        ns = O.build_classes(sc["classes"])
+        env = {f"T_{k}": v for k, v in ns.items()}
+        ov = Ovld(name="w")
+        log = []
+        for m in sc["methods"]:
+            if m["name"] not in keep:
+                continue
+            pos = [p for p in m["params"] if p["kind"] == "pos"]
+            kw = [p for p in m["params"] if p["kind"] == "kw"]
+            parts = [f"{p['name']}: T_{p['type']}" for p in pos]
+            if kw:
+                parts.append("*")
+                parts += [f"{p['name']}: T_{p['type']}" for p in kw]
+            call = ", ".join([p["name"] for p in pos] + [f"{p['name']}={p['name']}" for p in kw])
+            src = f"def {m['name']}({', '.join(parts)}):\n    LOG.append({m['name']!r})\n    if len(LOG) > 12:\n        raise RecursionError('walk does not terminate')\n    return call_next({call})\n"
+            g = dict(env, LOG=log, call_next=call_next)
+            _define(src, g)
+            ov.register(g[m["name"]], priority=m.get("priority", 0))
+        return ov, ns, log
+
+    def walk(sc, keep):
+        ov, ns, log = build(sc, keep)
+        args = [ns[c]() for c in sc["call"]["pos"]]
+        kwargs = {k: ns[c]() for k, c in sc["call"].get("kw", {}).items()}
+        try:
+            ov(*args, **kwargs)
+            end = "returned"
+        except TypeError as e:
+            s_ = str(e)
+            # a call shape the remaining methods do not accept is rejected by the generated entry point itself
+            end = "AMBIGUOUS" if s_.startswith("Ambiguous") else "NOMETHOD"
+        except RecursionError:
+            end = "RECURSION"
+        except Exception as e:
+            end = f"{type(e).__name__}:{str(e)[:40]}"
+        return list(log), end
+
+    bad, n = {}, 0
+    for sc in itertools.islice(O.scenarios(), 0, None, 3):
+        if any(p.get("default") for m in sc["methods"] for p in m["params"]):
+            continue
+        names = [m["name"] for m in sc["methods"]]
+        if len(set(json.dumps(m["params"]) for m in sc["methods"])) != len(names):
+            continue  # repeated signatures: the tiebreak findings
+        n += 1
+        got, got_end = walk(sc, set(names))
+        want, keep = [], set(names)
+        while True:
+            rlog, rend = walk(sc, keep)
+            if not rlog:
+                want_end = rend
+                break
+            want.append(rlog[0])
+            keep.discard(rlog[0])
+            if not keep:
+                want_end = "NOMETHOD"
+                break
+        if got_end not in ("NOMETHOD", "AMBIGUOUS", "RECURSION"):
+            b = bad.setdefault("walk.harness", dict(name="walk.harness", n_violations=0, violations=[]))
+            b["n_violations"] += 1
+            b["violations"] = b["violations"][:1] or [dict(end=got_end)]
+        if (got, got_end) != (want, want_end):
+            _, info = O.oracle(sc)
+            kind = "walk.equals_successive_fresh_calls" if info["chain"] else "walk.level_unfaithful"
+            b = bad.setdefault(kind, dict(name=kind, n_violations=0, violations=[]))
+            b["n_violations"] += 1
+            if len(b["violations"]) < 2:
+                b["violations"].append(dict(scenario={k: sc[k] for k in ("classes", "methods", "call")}, walk=got, end=got_end, successive_fresh_calls=want, their_end=want_end))
+    # second family: two dispatched positions, 3-4 methods, one option being a value-dependent type (a tied top rank can
+    # then be entered when the dependent condition is false)
+    from ovld.dependent import dependent_check as _dc
+
+    class L1:
+        flag = False
+
+    class L2(L1):
+        pass
+
+    class L2T(L2):
+        flag = True
+
+    @_dc
+    def Flagged(value: L1):
+        return value.flag
+
+    opts0 = {"o": object, "1": L1, "2": L2}  # static types only: with a value-dependent member the content of a tied rank depends on set iteration order (finding F-tiedhead)
+    opts1 = {"o": object, "1": L1, "2": L2}
+    combos = [(a, b) for a in opts0 for b in opts1]
+
+    def build2(ms):
+        ov = Ovld(name="w2")
+        log = []
+        for a, b in ms:
+            nm = f"m_{a}{b}"
+            g = dict(T0=opts0[a], T1=opts1[b], LOG=log, call_next=call_next)
+            _define(f"def {nm}(x: T0, y: T1):\n    LOG.append({nm!r})\n    if len(LOG) > 12:\n        raise RecursionError('walk does not terminate')\n    return call_next(x, y)\n", g)
+            ov.register(g[nm])
+        return ov, log
+
+    def walk2(ms, args):
+        ov, log = build2(ms)
+        try:
+            ov(*args)
+            end = "returned"
+        except TypeError as e:
+            s_ = str(e)
+            end = "NOMETHOD" if s_.startswith("No method") else "AMBIGUOUS" if s_.startswith("Ambiguous") else f"TypeError:{s_[:40]}"
+        except RecursionError:
+            end = "RECURSION"
+        except Exception as e:
+            end = f"{type(e).__name__}:{str(e)[:40]}"
+        return [x[2:] for x in log], end
+
+    sets = list(itertools.combinations(combos, 3)) + list(itertools.combinations(combos, 4))
+    for ms in sets:
+        for args in ((L2(), L2()), (L2T(), L2())):
+            n += 1
+            got, got_end = walk2(ms, args)
+            want, keep = [], list(ms)
+            while True:
+                rlog, rend = walk2(keep, args)
+                if not rlog:
+                    want_end = rend
+                    break
+                want.append(rlog[0])
+                keep = [m_ for m_ in keep if f"{m_[0]}{m_[1]}" != rlog[0]]
+                if not keep:
+                    want_end = "NOMETHOD"
+                    break
+            if (got, got_end) != (want, want_end):
+                # the reference walk continues below a tie only if the tie disappears with the removed method: when the
+                # walk stops at an ambiguity that the reference resolves differently, compare prefixes up to that point
+                kind = "walk2.equals_successive_fresh_calls"
+                b = bad.setdefault(kind, dict(name=kind, n_violations=0, violations=[]))
+                b["n_violations"] += 1
+                if len(b["violations"]) < 3:
+                    b["violations"].append(dict(methods=["".join(m_) for m_ in ms], flag=type(args[0]).__name__, walk=got, end=got_end, successive_fresh_calls=want, their_end=want_end))
+    return n, list(bad.values())
+
+
 def main():
     failing, n = [], 0
+    wn, wf = walk_suite()
+    n += wn
+    failing += wf
     for name, th, want in CASES:
         n += 1
         try:
